@@ -2,7 +2,7 @@
 From Util Require Import Common.Base Common.ListLemmas RefCount.Model RefCount.Spec RefCount.Proofs RefCount.ProofsC08 RefCount.ProofsC08b
   RefCount.ProofsC09 RefCount.ProofsC10 RefCount.ProofsC10a RefCount.ProofsC10b RefCount.ProofsCodec RefCount.ProofsMon RefCount.ProofsMon2 RefCount.ProofsMon3
   RefCount.ProofsMon4 RefCount.ProofsMon5 RefCount.ProofsMon6 RefCount.ProofsMon7 RefCount.ProofsMonG RefCount.ProofsMon8 RefCount.ProofsMon9 RefCount.ProofsMon10
-  RefCount.ProofsMon11 RefCount.ProofsMon12.
+  RefCount.ProofsMon11 RefCount.ProofsMon12 RefCount.ProofsMon17 RefCount.ProofsMonE RefCount.ProofsMon18.
 Open Scope nat_scope.
 
 Lemma zip3_length {A B C} (a : list A) (b : list B) (c : list C) : length (zip3 a b c) = Nat.min (length a) (Nat.min (length b) (length c)).
@@ -23,21 +23,6 @@ Qed.
 
 Definition Rinval (m : mst) (s : st) : Prop := forall c, nth c (m_inval m) false = true -> Once c (conss s).
 
-(* within one event a stored generation is not replaced by another *)
-Lemma vgen_same h e e0 rets : HR h -> hconst h = false -> dec h e e0 rets ->
-  resolved (hs h) = true -> resolved (settle (step repaired (hs h) e0)) = true ->
-  vgen (settle (step repaired (hs h) e0)) = vgen (hs h).
-Proof.
-  intros HRh Hc Hd Er Er'. pose proof (HR_inv h HRh Hc) as [[HN [_ [_ [_ [HV _]]]]] _]. pose proof (HR_chain h HRh) as HCh.
-  destruct (vf_fields _ _ (settle_vf (step repaired (hs h) e0))) as [A [_ [_ [D _]]]]. rewrite A in Er'. rewrite D.
-  assert (Cases : (forall g, e0 <> EStore g) \/ exists g x v hr er, e0 = EStore g /\ nth_error (gs (hs h)) g = Some x /\ gpcv x = GStore v hr er).
-  { destruct Hd; try (left; intros; discriminate). right. eauto 10. }
-  destruct Cases as [Hne|[g [x [v [hr [er [He0 [Hx Hp]]]]]]]].
-  - destruct (vkeep_step (hs h) e0 Hne) as [E|E]; [congruence|]. apply (vf_fields _ _ E).
-  - assert (Hnd : gdone x = false) by (unfold gdone; now rewrite Hp).
-    rewrite (pending_unresolved (hs h) g x HCh HN HV Hx Hnd) in Er. discriminate.
-Qed.
-
 Section Inval.
   Variables (m : mst) (h : hst) (e : list N) (e0 : ev) (rets : list N).
   Hypothesis HRh : HR h.
@@ -45,6 +30,7 @@ Section Inval.
   Hypothesis Hd : dec h e e0 rets.
   Hypothesis Hc : hconst h = false.
   Hypothesis Hcur : m_cur m = cur_of (hs h).
+  Hypothesis Hem : Rempty m (hs h).
   Hypothesis Hinv : Rinval m (hs h).
   Local Notation s := (hs h).
   Local Notation s1 := (step repaired (hs h) e0).
@@ -53,18 +39,7 @@ Section Inval.
 
   (* the monitors see an invalidation only when the stored result really went away *)
   Lemma lost_unresolved g : u_lost m e p = Some g -> resolved s' = false.
-  Proof.
-    unfold u_lost, u_lost0. rewrite Hcur, (upd_cur m h e e0 rets HRh HP Hd Hc Hcur). unfold cur_of at 1 3.
-    pose proof (vgen_same h e e0 rets HRh Hc Hd) as VS. pose proof (HR_inv h HRh Hc) as I0. pose proof (settle_vf s1) as V'.
-    destruct (resolved s) eqn:Er; [|destruct Hd; discriminate].
-    unfold cur_of. destruct (resolved s') eqn:Er'; [|reflexivity]. rewrite (VS eq_refl eq_refl), N.eqb_refl.
-    destruct Hd; try discriminate. destruct (N.eqb_spec (nn (vgen s)) g0) as [Eg|Eg]; [|discriminate]. intros _. exfalso.
-    assert (Evg : vgen s = n2n g0) by (rewrite <- Eg; now rewrite n2n_nn).
-    destruct I0 as [[_ [_ [_ [_ [[V1 _] _]]]]] _]. destruct (V1 Er) as [_ [_ [_ A4]]]. rewrite Evg in A4.
-    destruct (getg_nth_error s _ x H) as [Ex _]. rewrite Ex in A4.
-    destruct (vf_fields _ _ V') as [A _]. rewrite A in Er'. cbn [step] in Er'. rewrite H in Er'. unfold released_section in Er'.
-    rewrite A4, Nat.eqb_refl, start_resolve_resolved in Er'. discriminate.
-  Qed.
+  Proof. exact (lost_unresolved_c m h e e0 rets (HR_HRc h HRh Hc) HP Hd Hcur Hem g). Qed.
 
   Lemma p_inval_nth c : nth c (u_inval m e p) false = true ->
     c < length (conss s') /\
@@ -73,7 +48,7 @@ Section Inval.
   Proof.
     intros H. unfold u_inval in H.
     set (F := fun t : bool * option N * N => let '(iv, hv, k) := t in
-                iv || (N.eqb k 1 && match u_lost m e p, hv with Some g, Some v => N.eqb v (g + 1) | _, _ => false end)) in *.
+                iv || (N.eqb k 1 && match u_lost m e p, hv with Some g, Some v => N.eqb v (u_vofe m e g) | _, _ => false end)) in *.
     assert (Hlen : c < length (zip3 (u_inval1 m p) (u_holds m e p) (u_ckind m e))).
     { destruct (Nat.lt_ge_cases c (length (zip3 (u_inval1 m p) (u_holds m e p) (u_ckind m e)))) as [Hl|Hl]; [exact Hl|].
       rewrite nth_overflow in H by (now rewrite map_length). discriminate. }
